@@ -91,6 +91,21 @@ def run(ck):
                                   "gran": "line" if k % 2 else "sync", "lock_log": True,
                                   "lock_key": "xk/%s" % ",".join(l["t"] for l in layers),
                                   "facts": {"base": "pool", "nested": False, "retry": ly["t"] == "retry", "family": "xk"}})
+    # a running callable submits (once) to its own stack through a BLOCKING throttle of one slot: the slot it occupies
+    # itself is not something the nested submit() may wait for (only a full queue blocks)
+    for base in ("pool", "sync"):
+        for layers in ([{"t": "throttle", "count": 1, "block": True}],
+                       [{"t": "map", "fn": "tag"}, {"t": "throttle", "count": 1, "block": True}],
+                       [{"t": "throttle", "count": 1, "block": True}, {"t": "retry", "max": 2, "sleep": 100}]):
+            p = {"base": base, "workers": 2, "layers": [dict(l) for l in layers],
+                 "subs": [{"S": 0, "script": ["V"], "dur": 100, "thread": 0, "nested": True, "wait": True}],
+                 "shutdown": None, "horizon": 60000}
+            for k in range(2 if quick else 8):
+                tasks.append({"scen": "stack", "params": p, "strat": ["random", rng.randrange(10 ** 9), 0.5],
+                              "gran": "line" if k % 2 else "sync", "lock_log": True,
+                              "lock_key": "nb/%s/%s" % (base, ",".join(l["t"] for l in layers)),
+                              "facts": {"base": base, "nested": True, "retry": any(l["t"] == "retry" for l in layers),
+                                        "family": "nested_block"}})
     pairs = ck.run_and_validate(tasks, TRACE)
     # directed: shutdown(wait=True) at every point of a freshly woken worker-loop iteration (a lost wake-up ends in a
     # join that never returns)
